@@ -67,16 +67,15 @@ Proof.
   exists i, c, r. auto.
 Qed.
 
-Lemma stk_seq_step s d : wfb_stk s = true ->
-  stk_line (stk_seq_line s) d = Ok (dict_append (id_or_empty s) (b_data s) d, false).
+Lemma stk_row_step i c r d : id_stk_ok i = true -> residues_ok (c :: r) = true ->
+  stk_line (i ++ SP :: c :: r) d = Ok (dict_append i (c :: r) d, false).
 Proof.
-  intros H. destruct (wfb_stk_facts s H) as (i & c & r & Ei & Hi & Hc & Ed).
+  intros Hi Hres.
   destruct (id_stk_ok_facts i Hi) as (Hne & Hg & Hh & Hsl).
-  destruct (wfb_common_facts s Hc) as (Hres & _ & _). rewrite Ed in Hres.
   pose proof (residues_non_ws _ Hres) as Hnw.
   assert (W : is_ws c = false).
   { cbn in Hnw. apply andb_prop in Hnw. destruct Hnw as [Hnw _]. unfold non_ws in Hnw. apply negb_true_iff in Hnw. exact Hnw. }
-  unfold stk_seq_line, id_or_empty, stk_line. rewrite Ei, Ed. cbn [py_str_opt].
+  unfold stk_line.
   rewrite (strip_id_suffix i (SP :: c :: r) Hne (graph_non_ws i Hg)).
   2:{ right. exists c, r. split; [reflexivity|]. split; [exact W|]. apply (rstrip_all_non_ws (c :: r) Hnw). }
   assert (Hgn : forallb non_ws i = true) by (apply graph_non_ws; exact Hg).
@@ -93,6 +92,14 @@ Proof.
     (hash_prefix_false (bs "#=GC"%bs) a _ eq_refl Hh), (hash_prefix_false (bs "#=GS"%bs) a _ eq_refl Hh),
     (hash_prefix_false (bs "#=GR"%bs) a _ eq_refl Hh).
   cbn [orb head_is]. rewrite byte_eqb_sym, Hh. reflexivity.
+Qed.
+
+Lemma stk_seq_step s d : wfb_stk s = true ->
+  stk_line (stk_seq_line s) d = Ok (dict_append (id_or_empty s) (b_data s) d, false).
+Proof.
+  intros H. destruct (wfb_stk_facts s H) as (i & c & r & Ei & Hi & Hc & Ed).
+  destruct (wfb_common_facts s Hc) as (Hres & _ & _). rewrite Ed in Hres.
+  unfold stk_seq_line, id_or_empty. rewrite Ei, Ed. cbn [py_str_opt]. apply stk_row_step; assumption.
 Qed.
 
 Definition row (s : bseq) : str * str := (id_or_empty s, b_data s).
@@ -152,4 +159,100 @@ Proof.
   - change (write_w Stockholm (map (norm_plain Stockholm) b))
       with (@Ok content (CText (unlines (write_stockholm_lines (map (norm_plain Stockholm) b))))).
     rewrite stk_lines_norm. reflexivity.
+Qed.
+
+(* ---------------------------------------------------------------- interleaved blocks: rows with the same id are concatenated *)
+Lemma dict_append_twice k v1 v2 d : dict_append k v2 (dict_append k v1 d) = dict_append k (v1 ++ v2) d.
+Proof.
+  induction d as [|[k0 v0] d IH].
+  - cbn. rewrite str_eqb_refl. reflexivity.
+  - cbn [dict_append]. destruct (str_eqb k0 k) eqn:E; cbn [dict_append]; rewrite E.
+    + rewrite app_assoc. reflexivity.
+    + rewrite IH. reflexivity.
+Qed.
+(* a row of an id that is already present commutes with a row of any other id *)
+Lemma dict_append_comm k1 v1 k2 v2 d : str_eqb k1 k2 = false ->
+  existsb (str_eqb k1) (map fst d) = true ->
+  dict_append k1 v1 (dict_append k2 v2 d) = dict_append k2 v2 (dict_append k1 v1 d).
+Proof.
+  intros Hne. induction d as [|[k0 v0] d IH]; [discriminate|]. cbn [map fst existsb]. intros H1.
+  cbn [dict_append]. destruct (str_eqb k0 k2) eqn:E2; destruct (str_eqb k0 k1) eqn:E1; cbn [dict_append]; rewrite ?E1, ?E2; try reflexivity.
+  - apply str_eqb_eq in E1. apply str_eqb_eq in E2. subst. rewrite str_eqb_refl in Hne. discriminate.
+  - rewrite str_eqb_sym, E1 in H1. cbn [orb] in H1. rewrite (IH H1). reflexivity.
+Qed.
+Lemma dict_append_present k v d x : existsb (str_eqb x) (map fst d) = true -> existsb (str_eqb x) (map fst (dict_append k v d)) = true.
+Proof.
+  induction d as [|[k0 v0] d IH]; [discriminate|]. cbn [map fst existsb dict_append]. intros H.
+  destruct (str_eqb k0 k); cbn [map fst existsb]; [exact H|].
+  apply orb_true_iff in H. destruct H as [H|H]; [rewrite H; reflexivity|rewrite (IH H), orb_true_r; reflexivity].
+Qed.
+Lemma dict_append_has k v d : existsb (str_eqb k) (map fst (dict_append k v d)) = true.
+Proof.
+  induction d as [|[k0 v0] d IH]; cbn [dict_append map fst existsb].
+  - rewrite str_eqb_refl. reflexivity.
+  - destruct (str_eqb k0 k) eqn:E; cbn [map fst existsb]; [rewrite str_eqb_sym, E; reflexivity|rewrite IH, orb_true_r; reflexivity].
+Qed.
+
+Definition dict_fold (rows : list (str * str)) (d : list (str * str)) : list (str * str) :=
+  fold_left (fun d kv => dict_append (fst kv) (snd kv) d) rows d.
+
+Lemma dict_fold_comm k w rows : forall d, existsb (str_eqb k) (map fst d) = true ->
+  existsb (str_eqb k) (map fst rows) = false ->
+  dict_append k w (dict_fold rows d) = dict_fold rows (dict_append k w d).
+Proof.
+  induction rows as [|[kr vr] rows IH]; intros d Hp Ha; [reflexivity|].
+  cbn [map fst existsb] in Ha. apply orb_false_iff in Ha. destruct Ha as [Ha1 Ha2].
+  unfold dict_fold in *. cbn [fold_left fst snd].
+  rewrite IH; [|apply dict_append_present; exact Hp|exact Ha2].
+  rewrite (dict_append_comm k w kr vr d Ha1 Hp). reflexivity.
+Qed.
+
+(* two blocks with the same ids in the same order are read as one block of concatenated rows (dictionary level) *)
+Theorem stk_interleave_dict ks : forall vs ws d, distinct ks = true -> length vs = length ks -> length ws = length ks ->
+  dict_fold (combine ks ws) (dict_fold (combine ks vs) d) = dict_fold (combine ks (zip_app vs ws)) d.
+Proof.
+  induction ks as [|k ks IH]; intros vs ws d Hd Lv Lw; [reflexivity|].
+  destruct vs as [|v vs]; [discriminate|]. destruct ws as [|w ws]; [discriminate|].
+  cbn [distinct] in Hd. apply andb_prop in Hd. destruct Hd as [Hk Hd]. apply negb_true_iff in Hk.
+  cbn [length] in Lv, Lw. injection Lv as Lv. injection Lw as Lw.
+  cbn [combine zip_app]. unfold dict_fold in *. cbn [fold_left fst snd].
+  fold (dict_fold (combine ks vs) (dict_append k v d)).
+  rewrite (dict_fold_comm k w (combine ks vs) (dict_append k v d)).
+  - rewrite dict_append_twice. unfold dict_fold. apply IH; assumption.
+  - apply dict_append_has.
+  - clear - Hk Lv. revert vs Lv. induction ks as [|k0 ks IH]; intros vs Lv; [reflexivity|].
+    destruct vs as [|v0 vs]; [discriminate|]. cbn [existsb] in Hk. apply orb_false_iff in Hk. destruct Hk as [H1 H2].
+    cbn [combine map fst existsb]. rewrite H1. cbn [orb]. apply IH; [exact H2|]. cbn [length] in Lv. lia.
+Qed.
+
+(* line level: a run of well-formed sequence rows is a fold of dictionary updates *)
+
+Lemma stk_loop_rows rows : forall rest d, forallb row_ok rows = true ->
+  stk_loop (map row_line rows ++ rest) d = stk_loop rest (dict_fold rows d).
+Proof.
+  induction rows as [|[k v] rows IH]; intros rest d H; [reflexivity|].
+  cbn [forallb] in H. apply andb_prop in H. destruct H as [Hr Hrows].
+  unfold row_ok in Hr. cbn [fst snd] in Hr. apply andb_prop in Hr. destruct Hr as [Hr Hne]. apply andb_prop in Hr. destruct Hr as [Hi Hres].
+  destruct v as [|c r]; [discriminate|].
+  cbn [map app stk_loop]. unfold row_line at 1. cbn [fst snd]. rewrite (stk_row_step k c r d Hi Hres). cbn [bind].
+  rewrite (IH rest _ Hrows). reflexivity.
+Qed.
+
+(* an interleaved alignment (two blocks, optionally separated by blank lines) is read like the alignment with the rows of
+   each id concatenated *)
+Theorem stk_interleave ks vs ws sep rest d : distinct ks = true -> length vs = length ks -> length ws = length ks ->
+  forallb row_ok (combine ks vs) = true -> forallb row_ok (combine ks ws) = true ->
+  forallb row_ok (combine ks (zip_app vs ws)) = true ->
+  forallb (fun l => match strip l with [] => true | _ => false end) sep = true ->
+  stk_loop (map row_line (combine ks vs) ++ sep ++ map row_line (combine ks ws) ++ rest) d
+  = stk_loop (map row_line (combine ks (zip_app vs ws)) ++ rest) d.
+Proof.
+  intros Hd Lv Lw H1 H2 H3 Hsep.
+  rewrite (stk_loop_rows _ _ d H1).
+  assert (Hskip : forall d0 tail, stk_loop (sep ++ tail) d0 = stk_loop tail d0).
+  { induction sep as [|l sep IHs]; intros d0 tail; [reflexivity|].
+    cbn [forallb] in Hsep. apply andb_prop in Hsep. destruct Hsep as [Hl Hs].
+    cbn [app stk_loop]. unfold stk_line. destruct (strip l); [|discriminate]. cbn [bind]. apply IHs. exact Hs. }
+  rewrite Hskip. rewrite (stk_loop_rows _ _ _ H2). rewrite (stk_loop_rows _ _ d H3).
+  rewrite (stk_interleave_dict ks vs ws d Hd Lv Lw). reflexivity.
 Qed.
